@@ -378,6 +378,8 @@ class ProbeGen:
         return out
 
 
+TWIN = 500000   # id offset of the inline-variable twin of a wrapped probe
+
 LITERAL_FORMS = ["const", "static const", "inline const", "mutable", "class-static"]
 
 
@@ -387,6 +389,10 @@ def as_item(probe, pid, rng, allow_literal=True):
     it = dict(probe)
     it["id"] = pid
     it["form"] = "wrapped"
+    # every wrapped probe is evaluated twice before main: from an ordinary (ordered) namespace-scope object and
+    # from a C++17 inline variable / static inline data member (partially ordered; clang initialises these
+    # earlier than ordinary objects, GCC does not)
+    it["twin"] = rng.choice(["inline", "member"])
     if allow_literal and rng.chance(0.25):
         it["form"] = "literal"
         it["storage"] = rng.choice(LITERAL_FORMS)
@@ -442,6 +448,14 @@ def render_tu(tu):
         for it in tu["items"]:
             out.append(render_item(it))
         out.append("}  // namespace")
+        tag = "%s_%s" % (tu["name"], tu.get("uid", "x"))
+        for it in tu["items"]:
+            if it.get("form") == "wrapped" and it.get("twin"):
+                pid = it["id"]
+                if it["twin"] == "inline":
+                    out.append("inline const vrt::PreMain probe_twin_%s_%d{%d, &probe_fn_%d};" % (tag, pid, pid + TWIN, pid))
+                else:
+                    out.append("struct ProbeTwin_%s_%d { static inline const vrt::PreMain probe{%d, &probe_fn_%d}; };" % (tag, pid, pid + TWIN, pid))
     return "\n".join(out) + "\n"
 
 
